@@ -88,7 +88,12 @@ namespace glm
 				h = static_cast<T>(240) + T(60) * (rgbColor.r - rgbColor.g) / Delta;
 
 			if(h < T(0))
+			{
 				hsv.x = h + T(360);
+				// h + 360 rounds to 360 for a tiny negative h: wrap so that the hue stays in [0, 360)
+				if(hsv.x >= T(360))
+					hsv.x = T(0);
+			}
 			else
 				hsv.x = h;
 		}
